@@ -280,8 +280,11 @@ def read_attr(gwy, world: World, key: tuple[str, str]) -> Any:
 
 
 async def part_bc(loop: vloop.VirtualLoop, ctx, trial: int) -> None:
-    rng = ctx.rng
-    world = World(rng, rng.choice((1, 2, 4, 12)))
+    import random
+
+    rng = random.Random(f"C14/{ctx.seed}/{trial}")  # an episode is a function of (seed, trial) alone
+    ep = {"seed": ctx.seed, "trial": trial}
+    world = World(rng, rng.choice((1, 2, 4, 12)))  # noqa
     air = airmod.Air(loop)
     gwy = await harness.start_port_gateway(loop, air, GWY_ID, config={"disable_discovery": True}, **world.schema())
     port = gwy._vrf_port
@@ -318,7 +321,7 @@ async def part_bc(loop: vloop.VirtualLoop, ctx, trial: int) -> None:
                 ctx.violate(
                     f"C14|freshness|{key[1]}|{form}|{'unknown' if got is None else 'stale-or-wrong'}",
                     "an attribute does not report the value of the most recently received message for it",
-                    {"attr": list(key), "expected": val, "reported": got, "age_s": round(loop.time() - vt, 3), "last_packets": trail[-8:]},
+                    {"attr": list(key), "expected": val, "reported": got, "age_s": round(loop.time() - vt, 3), "last_packets": trail[-8:], "episode": ep},
                 )
     # (C) ageing: for a few attributes, move the clock to just before L and just after 2L+3
     keys = sorted(world.model, key=lambda k: world.model[k][1] + (world.model[k][2] or 0))
@@ -335,7 +338,7 @@ async def part_bc(loop: vloop.VirtualLoop, ctx, trial: int) -> None:
             ctx.violate(
                 f"C14|ageing|dropped-before-lifetime|{key[1]}|{form}",
                 "an attribute stopped reporting its newest message before that message's lifetime had passed",
-                {"attr": list(key), "expected": val, "reported": got, "age_s": round(loop.time() - vt, 3), "lifetime_s": life},
+                {"attr": list(key), "expected": val, "reported": got, "age_s": round(loop.time() - vt, 3), "lifetime_s": life, "episode": ep},
             )
     t_end = max(vt + 2 * life + 3 + EPS for (val, vt, life, form) in world.model.values() if life is not None)
     if t_end > loop.time():
@@ -357,13 +360,13 @@ async def part_bc(loop: vloop.VirtualLoop, ctx, trial: int) -> None:
             ctx.violate(
                 "C14|ageing|first-read-after-expiry-reports-stale-value",
                 "the first read of an attribute after its newest message expired still reports the expired value",
-                {"attr": list(key), "reported_first": first, "reported_second": second, "age_s": round(loop.time() - vt, 3), "lifetime_s": life},
+                {"attr": list(key), "reported_first": first, "reported_second": second, "age_s": round(loop.time() - vt, 3), "lifetime_s": life, "episode": ep},
             )
         if second is not None and second != "<raised>":
             ctx.violate(
                 f"C14|ageing|expired-value-lingers|{key[1]}|{form}",
                 "an attribute keeps reporting a value whose newest message expired (more than twice its lifetime ago)",
-                {"attr": list(key), "reported": second, "age_s": round(loop.time() - vt, 3), "lifetime_s": life},
+                {"attr": list(key), "reported": second, "age_s": round(loop.time() - vt, 3), "lifetime_s": life, "episode": ep, "last_packets_for_attr": [f for f in trail if f" {key[0][5:]}" in f or key[0][5:] in f.split(" ")[-1][:2]][-6:]},
             )
     ctx.ev()
     if trial < 1:
@@ -374,7 +377,8 @@ async def part_bc(loop: vloop.VirtualLoop, ctx, trial: int) -> None:
 
 def run(ctx) -> None:
     part_a(ctx)
-    for trial in range(40 if ctx.quick else 600):
+    for k in range(40 if ctx.quick else 600):
+        trial = ctx.shard + k * ctx.nshards
         harness.reset_transport_globals()
 
         async def go(loop, trial=trial):
@@ -387,3 +391,37 @@ def run(ctx) -> None:
             vloop.run(go)
         except vloop.Starved as err:
             ctx.inconclusive_because(f"scenario starved the virtual clock: {err}")
+
+
+def replay(data: dict[str, Any]) -> int:
+    from .common import Ctx
+
+    bad, seen = 0, set()
+    for w in data.get("witnesses", []):
+        ep = w.get("episode") or {}
+        if "trial" not in ep or (ep["seed"], ep["trial"]) in seen:
+            continue
+        seen.add((ep["seed"], ep["trial"]))
+        ctx = Ctx(PID, "thorough", ep["seed"], 0, 1)
+        harness.reset_transport_globals()
+
+        async def go(loop, ep=ep, ctx=ctx):
+            with clocks_patched(), patch("ramses_tx.transport.MIN_INTER_WRITE_GAP", 3600.0):
+                await part_bc(loop, ctx, ep["trial"])
+
+        vloop.run(go)
+        for k, v in ctx.violations.items():
+            if k in load_known_keys():
+                continue
+            print("REPRODUCED", k, "-", v["what"])
+            print("   ", str(v["witnesses"][0])[:1500])
+            bad += 1
+        if not bad:
+            print(f"episode seed={ep['seed']} trial={ep['trial']}: not reproduced")
+    return bad
+
+
+def load_known_keys() -> set[str]:
+    from .common import load_known
+
+    return set(load_known(PID)[0])
